@@ -299,7 +299,7 @@ def bundle(kind, tier, seed):
             meta['error'] = 'harness exited with %d' % rc
         # corpus first in spirit: the committed witnesses are always part of the bundle
         corp = [p for p in sorted(glob.glob(os.path.join(ROOT, 'corpus', '*.case')))]
-        want = {'builder': ('CASE B ', 'CASE BP '), 'runtime': ('CASE X ', 'CASE S ', 'CASE H ', 'CASE Y ', 'CASE Z ')}.get(kind, ())
+        want = {'builder': ('CASE B ', 'CASE BP '), 'runtime': ('CASE X ', 'CASE S ', 'CASE H ', 'CASE Y ', 'CASE Z ', 'CASE W ')}.get(kind, ())
         clines = [ln for p in corp for ln in open(p) if ln.startswith(want)]
         if clines:
             cin = os.path.join(bdir, 'corpus_in.txt')
@@ -356,7 +356,7 @@ def graph_overrides(bdir, drv, cap=20000):
     ov, cases = [], []
     for cid in order:
         kind = ic[cid]['kind']
-        tag = 'E' if kind == 'B' else ('G' if kind in ('X', 'S', 'H', 'Y', 'Z') else None)
+        tag = 'E' if kind == 'B' else ('G' if kind in ('X', 'S', 'H', 'Y', 'Z', 'W') else None)
         if tag is None:
             continue
         a, b = iobs.get(cid, {}).get(tag), mobs.get(cid, {}).get(tag)
